@@ -39,6 +39,9 @@ def make_cases(seed: int, tier: str, n_cases: int | None = None) -> list[dict]:
         # run's files); the tree after the second run is compared with the reference like any other schedule
         rs2 = rng(cs, "rerun")
         histories.append([{"sigma": {}}, {"sigma": engine.sample_sigma(rs2, ["hashseed", "enum"]), "dims": ["rerun", "hashseed", "enum"]}])
+        # ... and also: repeated in ONE process - the process has analysed the same paths before, when the files held
+        # other contents (library use, long-running callers); what it produces now must be what a fresh process produces
+        histories.append([{"sigma": {}, "prelude_edit": True, "dims": ["inproc_reanalysis"]}])
         cases.append({"index": idx, "case_seed": cs, "verif_seed": seed, "pkg": pkg, "options": options, "histories": histories})
     return cases
 
